@@ -162,7 +162,17 @@ struct ShapeImpl : public Shape {
   void ascii_dump(std::ostream& s) const { d.ascii_dump(s); }
   bool OK() const { return d.OK(); }
   Constraint_System constraints() const { return d.constraints(); }
-  Constraint_System matrix_constraints() const { DQ q(d); return q.constraints(); }
+  // Faithful reading of the matrix: inexact T -> exact entry-wise conversion to the same domain over
+  // mpq_class (a fresh object: no reduction data); T = mpq_class -> a copy whose reduction data is
+  // discarded by a dimension round trip.  Either way constraints() then lists every finite entry.
+  Constraint_System matrix_constraints() const {
+    if constexpr (std::is_same<T, mpq_class>::value) {
+      D q(d); const dimension_type n = q.space_dimension();
+      q.add_space_dimensions_and_embed(1); q.remove_higher_space_dimensions(n);
+      return q.constraints();
+    }
+    else { DQ q(d); return q.constraints(); }
+  }
   Constraint_System minimized_constraints() const { return d.minimized_constraints(); }
   Congruence_System congruences() const { return d.congruences(); }
   Congruence_System minimized_congruences() const { return d.minimized_congruences(); }
